@@ -273,6 +273,7 @@ package stree
 //@ pred closedRO(y *node[T]) := (forall z *node[T] :: {z in y.desc} z in y.desc ==> (forall w ref :: {w in z.desc, w in y.desc} w in z.desc ==> w in y.desc) && (forall k int :: {k in z.keys, k in y.keys} k in z.keys ==> k in y.keys && z.rep[k] == y.rep[k]))
 //@ pred treeRO(n *node[T], cmp func(T, T) int) := n != nil ==> allocated(n) && n in n.desc
 //@+     && (forall y *node[T] :: {y in n.desc} y in n.desc ==> y != nil && allocated(y) && local(y, cmp) && closedRO(y))
+//@ pred treeInvRO(t *Tree[T]) := t != nil && treeRO(t.root, t.compare) && (forall k int :: {k in t.elems} k in t.elems <==> inK(t.root, k))
 //@ pred ordPath(p []*node[T], cmp func(T, T) int) := len(p) > 0 ==> treeRO(p[0], cmp)
 //@+     && (forall j int :: {p[j]} 0 <= j && j < len(p) ==> p[j] in p[0].desc)
 //@+     && (forall j int, k int, m int :: {p[j], k in p[0].keys, m in p[j].keys} 0 <= j && j < len(p) && k in p[0].keys && !(k in p[j].keys) && m in p[j].keys ==> ((k < m) <==> (k < rank(cmp, p[j].X))))
@@ -366,8 +367,8 @@ package stree
 //@   ensures  [C03] upMax: cur(c).right == nil ==> rank(cmp, cur(c).X) in c.path[result.1 + 1].keys && forall k int :: {k in c.path[result.1 + 1].keys} k in c.path[result.1 + 1].keys ==> k <= rank(cmp, cur(c).X)
 //@   ensures  [C03] downNext: cur(c).right != nil ==> rank(cmp, result.0.X) in c.path[0].keys && rank(cmp, result.0.X) > rank(cmp, cur(c).X)
 //@   ensures  [C03] upNext: cur(c).right == nil && result.1 >= 0 ==> rank(cmp, c.path[result.1].X) in c.path[0].keys && rank(cmp, c.path[result.1].X) > rank(cmp, cur(c).X)
-//@   at before "return min, -1": assert [C03] min in c.path[0].desc
-//@   at before "return min, -1": assert [C03] rank(cmp, min.X) in c.path[len(c.path) - 1].keys
+//@   at return 1: assert [C03] result.0 in c.path[0].desc
+//@   at return 1: assert [C03] rank(cmp, result.0.X) in c.path[len(c.path) - 1].keys
 //@   loop 1: invariant [C03] max: rank(cmp, cur(c).X) in c.path[i].keys && forall k int :: {k in c.path[i].keys} k in c.path[i].keys ==> k <= rank(cmp, cur(c).X)
 //@   ensures  [C03] down: cur(c).right != nil ==> result.0 == cur(c).right && result.1 == -1
 //@   ensures  [C03] up: cur(c).right == nil ==> result.0 == nil && -1 <= result.1 && result.1 < len(c.path) - 1
@@ -383,8 +384,8 @@ package stree
 //@   ensures  [C03] upMin: cur(c).left == nil ==> rank(cmp, cur(c).X) in c.path[result.1 + 1].keys && forall k int :: {k in c.path[result.1 + 1].keys} k in c.path[result.1 + 1].keys ==> k >= rank(cmp, cur(c).X)
 //@   ensures  [C03] downPrev: cur(c).left != nil ==> rank(cmp, result.0.X) in c.path[0].keys && rank(cmp, result.0.X) < rank(cmp, cur(c).X)
 //@   ensures  [C03] upPrev: cur(c).left == nil && result.1 >= 0 ==> rank(cmp, c.path[result.1].X) in c.path[0].keys && rank(cmp, c.path[result.1].X) < rank(cmp, cur(c).X)
-//@   at before "return max, -1": assert [C03] max in c.path[0].desc
-//@   at before "return max, -1": assert [C03] rank(cmp, max.X) in c.path[len(c.path) - 1].keys
+//@   at return 1: assert [C03] result.0 in c.path[0].desc
+//@   at return 1: assert [C03] rank(cmp, result.0.X) in c.path[len(c.path) - 1].keys
 //@   loop 1: invariant [C03] min: rank(cmp, cur(c).X) in c.path[i].keys && forall k int :: {k in c.path[i].keys} k in c.path[i].keys ==> k >= rank(cmp, cur(c).X)
 //@   ensures  [C03] down: cur(c).left != nil ==> result.0 == cur(c).left && result.1 == -1
 //@   ensures  [C03] up: cur(c).left == nil ==> result.0 == nil && -1 <= result.1 && result.1 < len(c.path) - 1
@@ -485,12 +486,12 @@ package stree
 //@ func (*Tree).Cursor
 //@   ensures [C03] absent: result == nil || (fresh(result) && len(result.path) > 0 && pathOK(result) && result.path[0] == t.root && ord(t.compare, cur(result).X, key) == 0)
 //@   ensures [C03] steered: result != nil ==> forall a int, b int :: {result.path[a], result.path[b]} 0 <= a && b == a + 1 && b < len(result.path) ==> (ord(t.compare, key, result.path[a].X) < 0 && result.path[b] == result.path[a].left) || (ord(t.compare, key, result.path[a].X) > 0 && result.path[b] == result.path[a].right)
-//@   requires [C03] treeInv(t)
+//@   requires [C03] treeInvRO(t)
 //@   ensures [C03] ord: result != nil ==> ordPath(result.path, t.compare)
 //@   ensures [C03] present: result != nil <==> rank(t.compare, key) in t.elems
 //@
 //@ func (*Tree).Root
-//@   requires [C03] treeInv(t)
+//@   requires [C03] treeInvRO(t)
 //@   ensures [C03] ord: result != nil ==> ordPath(result.path, t.compare)
 //@   ensures [C03] empty: t.root == nil ==> result == nil
 //@   ensures [C03] root: t.root != nil ==> result != nil && fresh(result) && len(result.path) == 1 && result.path[0] == t.root && pathOK(result)
